@@ -295,6 +295,9 @@ class CryptoSeam:
 # installation of all seams around one operation
 
 
+TOOL_STACK_HEADROOM = 960  # frames available to tool code (an interpreter started for the CLI has ~1000 - a few)
+
+
 class Seams:
     def __init__(self, disk: _disk.Disk, entropy: Entropy, clock: Clock, fast: bool, sim_crypto: bool, rare: dict):
         self.disk = disk
@@ -329,11 +332,20 @@ class Seams:
             setattr(obj, name, new)
         if self.crypto:
             self.crypto.install()
+        # the tool always gets the same stack head-room, however deep the harness's own call stack happens to be
+        # (pool worker, plain process, replay): where deep input exhausts the stack must not depend on the caller
+        depth, f = 0, sys._getframe()
+        while f is not None:
+            depth += 1
+            f = f.f_back
+        self._old_limit = sys.getrecursionlimit()
+        sys.setrecursionlimit(depth + TOOL_STACK_HEADROOM)
         d.active = True
         return self
 
     def __exit__(self, *exc):
         self.disk.active = False
+        sys.setrecursionlimit(self._old_limit)
         if self.crypto:
             self.crypto.uninstall()
         for obj, name, old in reversed(self._saved):
